@@ -153,6 +153,8 @@ impl Array {
                     }
                 });
 
+                // restore the summed dimensions, which are flattened in the output
+                let x = x.reshape(target_clone.clone());
                 vec![Some(Array::sliced_op(
                     vec![&x],
                     &op,
